@@ -15,6 +15,7 @@ from consonance.config.client import ClientConfig
 from consonance.config.useragent import UserAgentConfig
 from consonance.streams.segmented.blockingqueue import BlockingQueueSegmentedStream
 from consonance.structs.keypair import KeyPair
+from consonance.exceptions.handshake_failed_exception import HandshakeFailedException
 
 import threading
 import logging
@@ -27,6 +28,18 @@ except ImportError:
     import queue as Queue
 
 
+class NoiseSession(object):
+    """
+    What belongs to one connection: protocol state, segment stream and the queue of received segments.
+    A handshake worker left over from a connection that was cut keeps its own session and can neither
+    consume nor produce data of the next connection.
+    """
+    def __init__(self, protocol, stream, queue):
+        self.protocol = protocol  # type: WANoiseProtocol
+        self.stream = stream  # type: BlockingQueueSegmentedStream
+        self.queue = queue
+
+
 class YowNoiseLayer(YowLayer):
     DEFAULT_PUSHNAME = "yowsup"
     HEADER = b'WA\x04\x00'
@@ -35,25 +48,45 @@ class YowNoiseLayer(YowLayer):
 
     def __init__(self):
         super(YowNoiseLayer, self).__init__()
-        self._wa_noiseprotocol = WANoiseProtocol(
-            4, 0, protocol_state_callbacks=self._on_protocol_state_changed
-        )  # type: WANoiseProtocol
-
+        self._session = None  # type: NoiseSession
         self._handshake_worker = None
-        self._stream = BlockingQueueSegmentedStream()  # type: BlockingQueueSegmentedStream
         self._read_buffer = bytearray()
         self._flush_lock = threading.Lock()
         self._flush_owner = None
-        self._incoming_segments_queue = Queue.Queue()
         self._profile = None
         self._rs = None
+        self._new_session()
+
+    def _new_session(self):
+        stale = self._session
+        session = NoiseSession(None, BlockingQueueSegmentedStream(), Queue.Queue())
+        session.protocol = WANoiseProtocol(
+            4, 0, protocol_state_callbacks=lambda state: self._on_protocol_state_changed(state, session)
+        )
+        self._session = session
+        self._handshake_worker = None
+        if stale is not None and stale.protocol.state == WANoiseProtocol.STATE_HANDSHAKE:
+            # releases a worker that still waits for the server of the connection that was cut
+            stale.queue.put(None)
+
+    @property
+    def _wa_noiseprotocol(self):
+        return self._session.protocol
+
+    @property
+    def _stream(self):
+        return self._session.stream
+
+    @property
+    def _incoming_segments_queue(self):
+        return self._session.queue
 
     def __str__(self):
         return "Noise Layer"
 
     @EventCallback(YowNetworkLayer.EVENT_STATE_DISCONNECTED)
     def on_disconnected(self, event):
-        self._wa_noiseprotocol.reset()
+        self._new_session()
 
     @EventCallback(YowAuthenticationProtocolLayer.EVENT_AUTH)
     def on_auth(self, event):
@@ -114,16 +147,20 @@ class YowNoiseLayer(YowLayer):
             )
             if not self._in_handshake():
                 logger.debug("Performing handshake [username= %d, passive=%s]" % (username, passive) )
+                session = self._session
                 self._handshake_worker = WANoiseProtocolHandshakeWorker(
-                    self._wa_noiseprotocol, self._stream, client_config, local_static, remote_static,
-                    self.on_handshake_finished
+                    session.protocol, session.stream, client_config, local_static, remote_static,
+                    lambda e=None: self.on_handshake_finished(e, session)
                 )
                 logger.debug("Starting handshake worker")
-                self._stream.set_events_callback(self._handle_stream_event)
+                session.stream.set_events_callback(lambda event: self._handle_stream_event(event, session))
                 self._handshake_worker.start()
 
-    def on_handshake_finished(self, e=None):
-        # type: (Exception) -> None
+    def on_handshake_finished(self, e=None, session=None):
+        # type: (Exception, NoiseSession) -> None
+        if session is not None and session is not self._session:
+            logger.debug("Ignoring the result of a handshake that belongs to a previous connection")
+            return
         if e is not None:
             self.emitEvent(YowLayerEvent(self.EVENT_HANDSHAKE_FAILED, reason=e))
             data=WriteEncoder(TokenDictionary()).protocolTreeNodeToBytes(
@@ -139,20 +176,29 @@ class YowNoiseLayer(YowLayer):
         """
         return self._wa_noiseprotocol.state == WANoiseProtocol.STATE_HANDSHAKE
 
-    def _on_protocol_state_changed(self, state):
+    def _on_protocol_state_changed(self, state, session=None):
+        session = session or self._session
+        if session is not self._session:
+            return
         if state == WANoiseProtocol.STATE_TRANSPORT:
-            if self._rs != self._wa_noiseprotocol.rs:
+            if self._rs != session.protocol.rs:
                 config = self._profile.config
-                config.server_static_public = self._wa_noiseprotocol.rs
+                config.server_static_public = session.protocol.rs
                 self._profile.write_config(config)
-                self._rs = self._wa_noiseprotocol.rs
-            self._flush_incoming_buffer()
+                self._rs = session.protocol.rs
+            self._flush_incoming_buffer(session)
 
-    def _handle_stream_event(self, event):
+    def _handle_stream_event(self, event, session=None):
+        session = session or self._session
         if event == BlockingQueueSegmentedStream.EVENT_WRITE:
-            self.toLower(self._stream.get_write_segment())
+            segment = session.stream.get_write_segment()
+            if session is self._session:
+                self.toLower(segment)
         elif event == BlockingQueueSegmentedStream.EVENT_READ:
-            self._stream.put_read_segment(self._incoming_segments_queue.get(block=True))
+            segment = session.queue.get(block=True)
+            if segment is None:
+                raise HandshakeFailedException("connection closed during handshake")
+            session.stream.put_read_segment(segment)
 
     def send(self, data):
         """
@@ -164,7 +210,8 @@ class YowNoiseLayer(YowLayer):
         data = bytes(data) if type(data) is not bytes else data
         self._wa_noiseprotocol.send(data)
 
-    def _flush_incoming_buffer(self):
+    def _flush_incoming_buffer(self, session=None):
+        session = session or self._session
         if self._flush_owner is threading.current_thread():
             # re-entered through a protocol state callback fired by receive() below,
             # the flush already running in this thread delivers the queued segments
@@ -172,8 +219,8 @@ class YowNoiseLayer(YowLayer):
         self._flush_lock.acquire()
         self._flush_owner = threading.current_thread()
         try:
-            while self._incoming_segments_queue.qsize():
-                self.toUpper(self._wa_noiseprotocol.receive())
+            while session is self._session and session.queue.qsize():
+                self.toUpper(session.protocol.receive())
         finally:
             self._flush_owner = None
             self._flush_lock.release()
@@ -185,6 +232,7 @@ class YowNoiseLayer(YowLayer):
         :return:
         :rtype:
         """
-        self._incoming_segments_queue.put(data)
-        if not self._in_handshake():
-            self._flush_incoming_buffer()
+        session = self._session
+        session.queue.put(data)
+        if session.protocol.state != WANoiseProtocol.STATE_HANDSHAKE:
+            self._flush_incoming_buffer(session)
